@@ -258,9 +258,10 @@ def check(model, rep, tier):
                             ast.Name(id=ename, ctx=ast.Load())], ctx=ast.Load())
     for conds, val in pathsym.path_values(cc.node, conv_calls[0], probe):
       ctexts = [(pol, core.norm(t)) for pol, t in conds]
-      is_obj = any(pol == 'T' and "hasattr(f.__class__, '__call__')" in t
+      F, A = fparams[0], fparams[1]
+      is_obj = any(pol == 'T' and ("hasattr(%s.__class__, '__call__')" % F) in t
                    for pol, t in ctexts)
-      is_fn = any(pol == 'T' and 'inspect.isfunction(f)' in t for pol, t in ctexts)
+      is_fn = any(pol == 'T' and ('inspect.isfunction(%s)' % F) in t for pol, t in ctexts)
       if not isinstance(val, ast.Tuple) or len(val.elts) != 2:
         ok = False
         continue
@@ -268,12 +269,12 @@ def check(model, rep, tier):
       if is_obj and not is_fn:
         pairs_seen.append(('callable-object', tv, ev))
         # special-method lookup: type(f).__call__, with the object itself first
-        if (tv, ev) != ('f.__class__.__call__', '(f,) + args') and (tv, ev) != (
-            'type(f).__call__', '(f,) + args'):
+        if (tv, ev) not in (('%s.__class__.__call__' % F, '(%s,) + %s' % (F, A)),
+                            ('type(%s).__call__' % F, '(%s,) + %s' % (F, A))):
           ok = False
       elif is_fn:
         pairs_seen.append(('function-or-method', tv, ev))
-        if tv != 'f' or ev not in ('args', "(getattr(f, '__self__', None),) + args"):
+        if tv != F or ev not in (A, "(getattr(%s, '__self__', None),) + %s" % (F, A)):
           ok = False
   rep.check(ok, 'CALL-FAITHFUL', '%s:target-and-arguments' % cc.site,
             'a function / method is converted as it is (its __self__ prepended); '
